@@ -23,7 +23,7 @@ workers = os.environ.get("VERIF_WORKERS") or str(max(4, ncpu // jobs))
 def one(d):
     name = os.path.basename(d.rstrip("/"))
     meta = json.load(open(d + "meta.json"))
-    prop = meta.get("breaks") or meta.get("property")
+    prop = os.environ.get("SEED_PROP_OVERRIDE") or meta.get("breaks") or meta.get("property")  # override: run another property's check against the change
     if meta.get("status") == "retired":
         return dict(seed=name, property=prop, verdict="RETIRED", sigs=[], line="%s %s RETIRED (no longer breaks the property on the current tree; see meta.json)" % (name, prop))
     scratch = tempfile.mkdtemp(prefix="verif-seedrepo-")
@@ -53,4 +53,5 @@ with ThreadPoolExecutor(max_workers=jobs) as ex:
     for row in ex.map(one, todo):
         print(row.pop("line"), flush=True)
         rows.append(row)
-json.dump(rows, open("/verif/benign/last_run.json" if benign else "/verif/seeded/last_run.json", "w"), indent=1)
+if not os.environ.get("SEED_PROP_OVERRIDE"):
+    json.dump(rows, open("/verif/benign/last_run.json" if benign else "/verif/seeded/last_run.json", "w"), indent=1)
